@@ -12,7 +12,7 @@ from . import spec as S
 def mk(spec, evs=(), failing=False):
     h = S.build(spec, failing=failing)
     for r, w in evs:
-        h.fill(r, w)
+        h.fill(A.fresh(r), w)
     return h
 
 
